@@ -18,6 +18,9 @@ use url::Url;
 
 pub type TS = Pin<Box<dyn futures::Stream<Item = Result<Bytes, TransportError>> + Send>>;
 
+/// how much an "endless" answer really holds before it ends in a transport error
+const ENDLESS_CAP: usize = 32 * 1024 * 1024;
+
 /// While a save is in progress the transport looks at the output directory every time a chunk is
 /// pulled: (directory, listing before the save, observations made, deviations seen)
 pub static OBSERVER: Mutex<Option<(std::path::PathBuf, String, u64, u64)>> = Mutex::new(None);
@@ -103,9 +106,13 @@ impl Transport for Mem {
                     })
                     .collect();
                 if endless {
+                    // "endless": ENDLESS_CAP further bytes, then a transport error. A client that bounds what it takes
+                    // stops long before; one that reads on meets the error instead of the size limit (and the run ends)
                     let block = Bytes::from(vec![b'x'; 4096]);
+                    let u2 = url.clone();
                     return Ok(futures::stream::iter(v)
-                        .chain(futures::stream::repeat_with(move || Ok(block.clone())))
+                        .chain(futures::stream::repeat_with(move || Ok(block.clone())).take(ENDLESS_CAP / 4096))
+                        .chain(futures::stream::once(async move { Err(TransportError::new(TransportErrorKind::Other, u2)) }))
                         .map(|x| {
                             observe();
                             x
@@ -130,8 +137,10 @@ impl Transport for Mem {
                     let block = Bytes::from(vec![b' '; 65536]);
                     let head: Vec<Result<Bytes, TransportError>> =
                         bytes.chunks(chunk).map(|c| Ok(Bytes::copy_from_slice(c))).collect();
+                    let u2 = url.clone();
                     return Ok(futures::stream::iter(head)
-                        .chain(futures::stream::repeat_with(move || Ok(block.clone())))
+                        .chain(futures::stream::repeat_with(move || Ok(block.clone())).take(ENDLESS_CAP / 65536))
+                        .chain(futures::stream::once(async move { Err(TransportError::new(TransportErrorKind::Other, u2)) }))
                         .boxed());
                 }
                 let chunks: Vec<Result<Bytes, TransportError>> =
